@@ -71,7 +71,7 @@ Lemma subchunks_loop_chainv fuel map_ cs sm :
   exists subs, subchunks_loop fuel Orig map_ (-1) cs sm = Ok subs /\ chainv map_ (-1) subs sm (len map_).
 Proof.
   revert sm. induction fuel as [|f IH]; intros sm Hs Hcs Hf Hpos; [lia|].
-  cbn [subchunks_loop]. destruct (sm <? len map_) eqn:E.
+  cbn [subchunks_loop]. unfold next_map_subchunk_v, span_kernels. destruct (sm <? len map_) eqn:E.
   - destruct (next_map_subchunk_m1 map_ sm cs) as [nsm [H1 [B1 V1]]]; [lia|lia|exact Hpos|].
     rewrite H1. cbn [bind].
     destruct (IH nsm) as [rest [H2 C2]]; [lia|lia|lia|exact Hpos|].
@@ -99,15 +99,15 @@ Proof.
   destruct (gve_spec map_ s e (-1)) as [[Ha Hg]|Hvalid]; try lia.
   - (* all invalid: only possible when the sub-chunk starts the chunk *)
     destruct Hstart as [->|Hne]; [|exfalso; apply Hne; apply Ha; lia].
-    unfold stream_subchunk. cbn [fst snd]. rewrite Hg. cbn [bind]. rewrite Z.eqb_refl.
+    unfold stream_subchunk, get_valid_value_extents_v, span_kernels. cbn [fst snd]. rewrite Hg. cbn [bind]. rewrite Z.eqb_refl.
     exists (map (fun _ => empty) rd). split; [reflexivity|]. split; [apply len_map|].
     intros i Hi. rewrite (nthd_map (fun _ => empty) empty empty) by lia.
     unfold MapStreamFixed.fval. rewrite Ha by lia. rewrite Z.eqb_refl. reflexivity.
   - (* some valid entry: same kernel call as the repaired code *)
     destruct (stream_subchunk_spec empty empty data (-1) map_ rd s e Hs Hse He Hr Hv) as [rd' [E1 [L1 P1]]].
     assert (Hsame : stream_subchunk empty empty Orig data map_ (-1) rd (s, e)
-                    = stream_subchunk empty empty Fixed data map_ (-1) rd (s, e)).
-    { unfold stream_subchunk. cbn [fst snd].
+                    = stream_subchunk empty empty Fixed0 data map_ (-1) rd (s, e)).
+    { unfold stream_subchunk, get_valid_value_extents_v, span_kernels. cbn [fst snd].
       destruct Hvalid as [i0 [j0 [H1 [H2 [H3 [Ha1 [Ha2 [Hn1 [Hn2 Hg]]]]]]]]].
       rewrite Hg. cbn [bind]. destruct (nthZ map_ i0 =? -1) eqn:E; [lia|]. reflexivity. }
     rewrite Hsame, E1. exists rd'. split; [reflexivity|]. split; [exact L1|].
